@@ -19,10 +19,11 @@ Definition rok (c : ctrl) : Prop :=
 Definition cinv (c : ctrl) : Prop :=
   rok c /\
   match c_phase c with
-  | PInit | PWait | PLoad | PAttach => c_restore c = None /\ c_started c = false
+  | PInit | PWait | PLoad => c_restore c = None /\ c_started c = false /\ c_touched c = false
+  | PAttach => c_restore c = None /\ c_started c = false
   | PFirstSecond | PTicking => c_restore c = None /\ c_started c = true
   | PStopped => c_restore c <> None /\ c_started c = true
-  | PReturned => c_started c = true -> c_restore c <> None
+  | PReturned => c_started c = true \/ c_touched c = true -> c_restore c <> None
   end.
 
 Lemma rok_do_restore c p ph e :
@@ -37,21 +38,26 @@ Lemma cinv_adv canc c a :
 Proof.
   intros [R I] U. unfold ctrl_adv.
   destruct (c_phase c) eqn:P.
-  - (* PInit *) destruct I as [N S]. destruct (a_fail a).
-    + split; [exact R|]. cbn. intros; congruence.
-    + split; [unfold rok; cbn; rewrite N; exact I|]. cbn. auto.
+  - (* PInit *) destruct I as [N [S T]]. destruct (a_fail a).
+    + split; [exact R|]. cbn. intros [H|H]; congruence.
+    + split; [unfold rok; cbn; rewrite N; exact Logic.I|]. cbn. auto.
   - (* PWait *) split; [exact R|]. cbn. exact I.
-  - (* PLoad *) destruct I as [N S]. destruct (a_init a).
+  - (* PLoad *) destruct I as [N [S T]]. destruct (a_init a).
     + destruct (c_backend c) eqn:B.
-      * destruct (a_fail a).
-        -- split; [apply rok_do_restore; exact U|]. cbn. intros _; discriminate.
-        -- split; [unfold rok; cbn; rewrite N; exact I|]. cbn. auto.
-      * destruct (a_fail a); (split; [exact R|]); cbn; auto; intros; congruence.
-      * destruct (a_fail a); (split; [exact R|]); cbn; auto; intros; congruence.
+      * destruct (a_skip a).
+        -- destruct (a_fail a); (split; [exact R|]); cbn; auto. intros [H|H]; congruence.
+        -- destruct (a_fail a).
+           ++ split; [apply rok_do_restore; exact U|]. cbn. intros _; discriminate.
+           ++ split; [unfold rok; cbn; rewrite N; exact Logic.I|]. cbn. auto.
+      * destruct (a_fail a); (split; [exact R|]); cbn; auto. intros [H|H]; congruence.
+      * destruct (a_fail a); (split; [exact R|]); cbn; auto. intros [H|H]; congruence.
     + split; [exact R|]. cbn. auto.
   - (* PAttach *) destruct I as [N S]. destruct (a_fail a).
-    + split; [exact R|]. cbn. intros; congruence.
-    + destruct (a_sweep a); (split; [unfold rok; cbn; rewrite N; exact I|]); cbn; auto.
+    + cbn [d23_no_restore_after_init repaired negb]. rewrite andb_true_r.
+      destruct (c_touched c) eqn:T.
+      * split; [apply rok_do_restore; exact U|]. cbn. intros _; discriminate.
+      * split; [exact R|]. cbn. rewrite T. intros [H|H]; congruence.
+    + destruct (a_sweep a); (split; [unfold rok; cbn; rewrite N; exact Logic.I|]); cbn; auto.
   - (* PFirstSecond *) split; [exact R|]. cbn. exact I.
   - (* PTicking *) destruct I as [N S]. destruct canc.
     + split; [apply rok_do_restore; exact U|].
@@ -225,8 +231,8 @@ Qed.
 (* ---- the code as found: witnesses ---- *)
 
 Definition plan_ok : rplan := mkPlan WOk WOk ROk WOk.
-Definition adv_ok : adv := mkAdv false false false (mkDev 1 0) ROk ROk 0 plan_ok.
-Definition adv_init_fail : adv := mkAdv true true false (mkDev 1 30) ROk ROk 0 plan_ok.
+Definition adv_ok : adv := mkAdv false false false false (mkDev 1 0) ROk ROk 0 plan_ok.
+Definition adv_init_fail : adv := mkAdv true true false false (mkDev 1 30) ROk ROk 0 plan_ok.
 Definition to_ticking (i : nat) : list event := repeat (Advance i adv_ok) 5.
 
 Definition one_fan : list fan_cfg := [(BHwmon, true, true, mkDev 2 90)].
@@ -267,8 +273,8 @@ Proof. vm_compute. repeat split. Qed.
 (* a start-up gap that remains (not part of "regulation began"): the second
    LoadFanPwmData / AttachFanRpmCurveData failing AFTER a successful
    initialisation sequence returns without restorePwmEnabled *)
-Definition adv_init_ok : adv := mkAdv false true false (mkDev 1 200) ROk ROk 0 plan_ok.
-Definition adv_fail : adv := mkAdv true false false (mkDev 1 0) ROk ROk 0 plan_ok.
+Definition adv_init_ok : adv := mkAdv false true false false (mkDev 1 200) ROk ROk 0 plan_ok.
+Definition adv_fail : adv := mkAdv true false false false (mkDev 1 0) ROk ROk 0 plan_ok.
 Example process_startup_gap :
   let s := exec repaired (init one_fan 0) [Advance 0 adv_ok; Advance 0 adv_ok; Advance 0 adv_init_ok; Advance 0 adv_fail; SigRecv; Finish] in
   st s = Exited 1 /\ map c_dev (ctrls s) = [mkDev 1 200] /\ map c_started (ctrls s) = [false] /\ map c_touched (ctrls s) = [true].
